@@ -42,6 +42,9 @@ SEL_CFG = """CONSTANTS
   BorderCells = {}
   MaxBorder = 0
   PointCells = {}
+  HistOps = {}
+  HistGrids = {}
+  HistLen = 0
 SPECIFICATION RSpec
 """ + "".join(f"INVARIANT {n}\n" for n in SEL_INVARIANTS)
 
@@ -54,8 +57,28 @@ REL_CFG = """CONSTANTS
   BorderCells <- MCBorderCells
   MaxBorder <- MCMaxBorder
   PointCells <- MCPointCells
+  HistOps = {}
+  HistGrids = {}
+  HistLen = 0
 SPECIFICATION RSpec
 """ + "".join(f"INVARIANT {n}\n" for n in REL_INVARIANTS)
+
+HIST_CFG = """CONSTANTS
+  Shapes = {}
+  KernelShapes = {}
+  SubSizes = {}
+  AllMapsCells = 0
+  Patterns = {}
+  BorderCells = {}
+  MaxBorder = 0
+  PointCells = {}
+  HistOps <- MCHistOps
+  HistGrids <- MCHistGrids
+  HistLen <- MCHistLen
+SPECIFICATION RSpec
+INVARIANT HistOwnBorder
+INVARIANT HistBounded
+"""
 
 TRACE_CFG = """CONSTANTS
   Shapes = {}
@@ -66,6 +89,9 @@ TRACE_CFG = """CONSTANTS
   BorderCells = {}
   MaxBorder = 0
   PointCells = {}
+  HistOps = {}
+  HistGrids = {}
+  HistLen = 0
 SPECIFICATION TraceSpec
 POSTCONDITION TraceAccepted
 """
@@ -133,6 +159,22 @@ def enumerate_relocation(ctx, border_side, max_border, lo, hi, tag="MC_Relocatio
     return bags, stats
 
 
+HIST_OPS = {"G": "relocated_grid_from", "M": "relocated_mesh_grid_from", "R": "mapper_grids_rectangular",
+            "D": "mapper_grids_delaunay"}
+
+
+def enumerate_histories(ctx, ops, n_grids, length, tag="MC_History", timeout=3000):
+    """Every sequence of `length` calls (entry point x data grid identity) on one relocator instance."""
+    ops_tla = ", ".join('"%s"' % o for o in ops)
+    defs = f"MCHistOps == {{{ops_tla}}}\nMCHistGrids == 1 .. {n_grids}\nMCHistLen == {length}"
+    res = ctx.tlc("Relocation", HIST_CFG, defs=defs, tag=tag, timeout=timeout, coverage=True, workers=2)
+    hists = [tuple((c["op"], int(c["grid"])) for c in r["calls"]) for r in res.by_kind("hinst")]
+    want = (len(ops) * n_grids) ** length
+    if len(set(hists)) != want or len(hists) != want:
+        raise core.MachineryError(f"Relocation.tla (history) enumerated {len(hists)} call sequences, expected {want}")
+    return sorted(hists)
+
+
 # ----------------------------------------------------------------------------------------------
 # gamma / alpha
 # ----------------------------------------------------------------------------------------------
@@ -168,6 +210,32 @@ def _lattice_of_scaled(grid, h, w, sy, sx, oy, ox):
         else:
             out.append([int(round(a)), int(round(b))])
     return out
+
+
+def _base_lattice(h, w, u, sub):
+    """The image-plane sub-pixel centres on the 1/24-pixel lattice (array centre = 0, y up), computed WITHOUT the library."""
+    out = []
+    for c, s_ in zip(u, sub):
+        i, j = divmod(int(c), w)
+        for a in range(s_):
+            for b in range(s_):
+                out.append((12 * h - (24 * i + (2 * a + 1) * 12 // s_), 24 * j + (2 * b + 1) * 12 // s_ - 12 * w))
+    return np.array(out, dtype=np.int64).reshape(-1, 2)
+
+
+def _published_border(mask_spec, sub, form):
+    """The relocator and its published sub-border indices, or (None, reason) when the library raises or publishes indices
+    outside 0 .. total-1 -- inputs inside the property's domain, so that is a wrong answer (judged through a 'select'
+    record by the caller), never a machinery failure."""
+    try:
+        br = _relocator(_mask_of(*mask_spec), sub, form)
+        sbs = np.asarray(br.sub_border_slim).astype(int).ravel()
+    except Exception as ex:
+        return None, f"{type(ex).__name__}: {ex}"[:200]
+    total = int(sum(int(x) ** 2 for x in sub))
+    if len(sbs) and (sbs.min() < 0 or sbs.max() >= total):
+        return None, "sub_border_slim out of range"
+    return br, sbs
 
 
 def select_record(inst, seed=0, geom=None, form=None):
@@ -215,19 +283,23 @@ CALLS = ("relocated_grid_from", "mapper_grids_rectangular", "relocated_mesh_grid
          "mapper_grids_voronoi")
 
 
-def reloc_record(call, mask_spec, sub, form, grid_int, tick, pts_int=None, container="irregular"):
-    """One 'relocate' record: run the real entry point `call` on the lattice data grid (and mesh points)."""
+def reloc_record(call, mask_spec, sub, form, grid_int, tick, pts_int=None, container="irregular", br=None, hist=0,
+                 prefix=None):
+    """One 'relocate' record: run the real entry point `call` on the lattice data grid (and mesh points).
+    `br`: an existing relocator instance to be REUSED (history of `hist` earlier calls, listed in `prefix` for replay)."""
     import autoarray as aa
 
     h, w, u = mask_spec
-    mask = _mask_of(h, w, u)
+    mask = _mask_of(h, w, u) if br is None else br.mask
     G = np.asarray(grid_int, dtype=np.int64).reshape(-1, 2)
     rec = {"api": "relocate", "call": call, "h": h, "w": w, "u": [int(x) for x in u], "sub": [int(s) for s in sub],
            "form": form, "tick": tick, "container": container, "grid": G.tolist(), "bidx": [], "own": pts_int is None,
            "pts": [] if pts_int is None else np.asarray(pts_int, dtype=np.int64).reshape(-1, 2).tolist(),
-           "out": [], "raised": False}
+           "out": [], "raised": False, "hist": int(hist), "lat": all(int(x) in (1, 2, 3, 4, 6, 12) for x in sub),
+           "prefix": prefix or []}
     try:
-        br = _relocator(mask, sub, form)
+        if br is None:
+            br = _relocator(mask, sub, form)
         sbs = np.asarray(br.sub_border_slim).astype(int).ravel()
         rec["bidx"] = [int(x) for x in sbs]
         g = G.astype(float) * tick
@@ -278,9 +350,7 @@ def reloc_record(call, mask_spec, sub, form, grid_int, tick, pts_int=None, conta
 # ----------------------------------------------------------------------------------------------
 def _strip_mask(nb, npts):
     """A mask with exactly nb border pixels (a horizontal strip) and enough sub-pixels to hold border + points."""
-    s = 1
-    while nb * s * s < nb + npts:
-        s += 1
+    s = next(x for x in (1, 2, 3, 4, 6, 12, 24) if nb * x * x >= nb + npts)
     h, w = 3, nb + 2
     u = [w + 1 + k for k in range(nb)]
     return (h, w, u), [s] * nb
@@ -296,10 +366,10 @@ def bag_records(args):
         pts = sorted(pts)
         nb = len(bag)
         mask_spec, sub = _strip_mask(nb, len(pts))
-        br = _relocator(_mask_of(*mask_spec), sub, "int")
-        sbs = np.asarray(br.sub_border_slim).astype(int).ravel()
-        if len(sbs) != nb:
-            raise core.MachineryError(f"strip mask with {nb} pixels has {len(sbs)} border sub-pixels")
+        br, sbs = _published_border(mask_spec, sub, "int")
+        if br is None or len(sbs) != nb:  # wrong answer of the library on the strip mask: judged as a selection
+            out.append(select_record((*mask_spec, sub), seed, form="int"))
+            continue
         N = nb * sub[0] ** 2
         G = np.tile(np.array(bag[0], dtype=np.int64), (N, 1))  # filler: copies of a border coordinate
         G[sbs] = np.array(bag, dtype=np.int64)[rng.permutation(nb)]
@@ -376,12 +446,13 @@ def random_relocation_records(args):
         else:
             sub = [1] * nu
         form = ["int", "array2d", "ndarray"][k % 3]
-        mask = _mask_of(h, w, u)
-        br = _relocator(mask, sub, form)
-        sbs = np.asarray(br.sub_border_slim).astype(int).ravel()
+        br, sbs = _published_border((h, w, u), sub, form)
+        if br is None:  # the library raised / published indices out of range: judged as a wrong selection
+            out.append(select_record((h, w, u, sub), seed, form=form))
+            continue
         if len(sbs) == 0:
             continue
-        base = np.rint(np.asarray(br.sub_grid, dtype=float) * 24.0).astype(np.int64)  # 1/24-pixel lattice, array centre = 0
+        base = _base_lattice(h, w, u, sub)  # 1/24-pixel lattice, array centre = 0
         N = base.shape[0]
         style = k % 6
         if style == 0:
@@ -434,6 +505,77 @@ def random_relocation_records(args):
     return out
 
 
+def _special_points(rng, P, sbs, n_far_div=6):
+    """Overwrite some non-border entries of the lattice grid P: far outside, exact copies of border coordinates, at the centroid."""
+    N = len(P)
+    nonborder = np.setdiff1d(np.arange(N), sbs)
+    rng.shuffle(nonborder)
+    m = len(nonborder)
+    far, copies, nearc = nonborder[: m // n_far_div], nonborder[m // n_far_div: m // 3], nonborder[m // 3: m // 2]
+    c = np.rint(P[sbs].mean(axis=0)).astype(np.int64)
+    if len(far):
+        ang = rng.random(len(far)) * 2 * np.pi
+        rad = rng.choice([150, 300, 600, 1500, 5000], size=len(far))
+        P[far] = c + np.rint(np.stack([np.sin(ang), np.cos(ang)], axis=1) * rad[:, None]).astype(np.int64)
+    if len(copies):
+        P[copies] = P[rng.choice(sbs, size=len(copies))]
+    if len(nearc):
+        P[nearc] = c + rng.integers(-3, 4, size=(len(nearc), 2))
+    return _fit_range(P, sbs)
+
+
+def _mesh_points(rng, P, sbs, nm):
+    """Mesh vertices for the data grid P: around and far from ITS border centroid, copies of its border points, deep inside."""
+    c = np.rint(P[sbs].mean(axis=0)).astype(np.int64)
+    spread = int(max(40, np.abs(P[sbs] - c).max() * 2))
+    M = c + rng.integers(-spread, spread + 1, size=(nm, 2))
+    M[: nm // 4] = P[rng.choice(sbs, size=nm // 4)]
+    M[nm // 4: nm // 2] = c + rng.integers(-5, 6, size=(nm // 2 - nm // 4, 2))
+    if nm > 4:
+        M[-2:] = c + rng.choice([-1, 1], size=(2, 2)) * rng.integers(400, 3000, size=(2, 2))
+    return _fit_range(np.concatenate([P[sbs], M]), np.arange(len(sbs)))[len(sbs):]
+
+
+HIST_MAPS = [(np.array([[1, 0], [0, 1]]), 1, (0, 0)), (np.array([[3, 1], [0, 2]]), 1, (170, -90)),
+             (np.array([[1, -1], [1, 1]]), 2, (-210, 60))]
+
+
+def history_records(args):
+    """S->C for the history machine: every enumerated call sequence is replayed on ONE BorderRelocator instance; the data
+    grids with different identities are different distortions (different borders, centroids, scales); every call is
+    recorded with the data grid passed to THAT call and judged against that grid's border."""
+    hists, seed = args
+    out = []
+    for n, hist in hists:
+        rng = np.random.default_rng(seed * 104729 + n)
+        h, w, u = mc.random_masks(rng, 1, max_side=5, min_side=2)[0]
+        if len(u) > 14:
+            u = u[:14]
+        sub = ([int(x) for x in rng.integers(1, 4, size=len(u))], [2] * len(u), [1] * len(u))[n % 3]
+        form = ["array2d", "int", "ndarray"][n % 3]
+        spec = (h, w, u)
+        br, sbs = _published_border(spec, sub, form)
+        if br is None:
+            out.append(select_record((h, w, u, sub), seed, form=form))
+            continue
+        if len(sbs) == 0:
+            continue
+        base = _base_lattice(h, w, u, sub)
+        grids = {}
+        for g in sorted({g for _, g in hist}):
+            A, d, t = HIST_MAPS[(g - 1) % len(HIST_MAPS)]
+            P = (base @ A.T) // d + np.array(t) + rng.integers(-6, 7, size=base.shape)
+            grids[g] = (_special_points(rng, P, sbs), TICKS[int(rng.integers(0, len(TICKS)))])
+        prefix = []
+        for k, (op, g) in enumerate(hist):
+            P, tick = grids[g]
+            call = HIST_OPS[op]
+            M = _mesh_points(rng, P, sbs, int(rng.integers(6, 16))) if op in ("M", "D") else None
+            out.append(reloc_record(call, spec, sub, form, P, tick, pts_int=M, br=br, hist=k, prefix=list(prefix)))
+            prefix.append({"call": call, "grid": P.tolist(), "tick": tick, "pts": None if M is None else M.tolist()})
+    return out
+
+
 def _select_many(args):
     insts, seed = args
     return [select_record(inst, seed) for inst in insts]
@@ -451,7 +593,7 @@ def validate(ctx, records, tag, chunk_sel=4000, chunk_rel=100):
     rel = [r for r in records if r["api"] != "select"]
     chunks = [sel[k: k + chunk_sel] for k in range(0, len(sel), chunk_sel)]
     chunks += [rel[k: k + chunk_rel] for k in range(0, len(rel), chunk_rel)]
-    keep = ("api", "id", "h", "w", "u", "sub", "sbs", "sbg", "bslim", "call", "grid", "bidx", "own", "pts", "out", "raised")
+    keep = ("api", "id", "h", "w", "u", "sub", "sbs", "sbg", "bslim", "call", "grid", "bidx", "own", "pts", "out", "raised", "hist", "lat")
     rejects = []
 
     def one(a):
@@ -469,7 +611,7 @@ def validate(ctx, records, tag, chunk_sel=4000, chunk_rel=100):
             what = (f"sub_border_slim/sub_border_grid on {rec['h']}x{rec['w']} mask u={rec['u']} sub={rec['sub']} "
                     f"geom={rec['geom']}: got sbs={rec['sbs']}; failed {rj['clauses']}")
         else:
-            what = (f"{rec['call']} on {rec['h']}x{rec['w']} mask u={rec['u']} sub={rec['sub'][:8]}.. tick={rec['tick']} "
+            what = (f"{rec['call']} (call #{rec.get('hist', 0) + 1} on this relocator instance) on {rec['h']}x{rec['w']} mask u={rec['u']} sub={rec['sub'][:8]}.. tick={rec['tick']} "
                     f"({len(rec['grid'])} grid points, {len(rec['bidx'])} border points): failed {rj['clauses']}; "
                     f"{rec.get('error', '')} want={str(rj.get('want'))[:400]}")
         ctx.violation(rj["sig"], what, {"record": rec, "failed_clauses": rj["clauses"], "spec_wanted": rj.get("want")},
@@ -483,10 +625,12 @@ def bounds_for(quick):
         return {"selection_exhaustive_masks_up_to_cells": 7, "selection_extra_shapes": [(3, 3), (2, 4), (4, 2)],
                 "every_sub_size_map_up_to_cells": 4, "sub_size_patterns": list(range(1, 11)),
                 "relocation_border_lattice_side": 3, "relocation_max_border_points": 3, "relocation_point_lattice": [-2, 4],
+                "history_ops": ["G", "M", "R", "D"], "history_grids": 2, "history_calls": 3,
                 "random_selection_masks": 150, "random_relocation_masks": 90, "random_relocation_max_side": 7}
     return {"selection_exhaustive_masks_up_to_cells": 10, "selection_extra_shapes": [(3, 4), (4, 3)],
             "every_sub_size_map_up_to_cells": 5, "sub_size_patterns": list(range(1, 11)),
             "relocation_border_lattice_side": 4, "relocation_max_border_points": 3, "relocation_point_lattice": [-3, 6],
+            "history_ops": ["G", "M", "R", "D"], "history_grids": 3, "history_calls": 3,
             "random_selection_masks": 1500, "random_relocation_masks": 900, "random_relocation_max_side": 9}
 
 
@@ -500,11 +644,13 @@ def run(ctx):
     import concurrent.futures as cf
 
     lo, hi = b["relocation_point_lattice"]
-    with cf.ThreadPoolExecutor(max_workers=2) as ex:
+    with cf.ThreadPoolExecutor(max_workers=3) as ex:
+        f_his = ex.submit(enumerate_histories, ctx, b["history_ops"], b["history_grids"], b["history_calls"])
         f_sel = ex.submit(enumerate_selection, ctx, shapes, b["every_sub_size_map_up_to_cells"], b["sub_size_patterns"])
         f_rel = ex.submit(enumerate_relocation, ctx, b["relocation_border_lattice_side"], b["relocation_max_border_points"], lo, hi)
         insts = f_sel.result()
         bags, stats = f_rel.result()
+        hists = f_his.result()
     ctx.exhaustive = True
     # ---- real code ----------------------------------------------------------------------------
     rnd_sel = random_selection_instances(rng, b["random_selection_masks"])
@@ -520,19 +666,27 @@ def run(ctx):
     rnd_recs = []
     for part in core.pmap(random_relocation_records, [(masks[k: k + 6], ctx.seed) for k in range(0, len(masks), 6)]):
         rnd_recs.extend(part)
-    ctx.replayed = len(insts) + sum(len(v) for v in bags.values())
+    hl = list(enumerate(hists))
+    hist_recs = []
+    for part in core.pmap(history_records, [(hl[k: k + 8], ctx.seed) for k in range(0, len(hl), 8)]):
+        hist_recs.extend(part)
+    ctx.replayed = len(insts) + sum(len(v) for v in bags.values()) + len(hists)
     ctx.sample({"selection_record": {k: v for k, v in recs[len(insts) // 2].items()}})
-    small = [r for r in rnd_recs if len(r["grid"]) <= 12 and not r["own"]]
+    small = [r for r in rnd_recs if r["api"] == "relocate" and len(r["grid"]) <= 12 and not r["own"]]
     if small:
-        ctx.sample({"relocation_record": small[0]})
+        ctx.sample({"relocation_record": {k: v for k, v in small[0].items() if k != "prefix"}})
+    ctx.sample({"history": [list(c) for c in hists[len(hists) // 2]]})
     ctx.sample({"relocation_machine_instance": {"border": list(bag_list[len(bag_list) // 2][0]), "points": len(bag_list[0][1])}})
-    allrecs = recs + bag_recs + rnd_recs
+    allrecs = recs + bag_recs + rnd_recs + hist_recs
     validate(ctx, allrecs, "C18")
-    moved = sum(1 for r in bag_recs + rnd_recs for o in r["out"] if not o[0])
-    total = sum(len(r["out"]) for r in bag_recs + rnd_recs)
+    relrecs = [r for r in bag_recs + rnd_recs + hist_recs if r["api"] == "relocate"]
+    moved = sum(1 for r in relrecs for o in r["out"] if not o[0])
+    total = sum(len(r["out"]) for r in relrecs)
     ctx.note(f"selection: {len(insts)} enumerated (mask, sub-size map) instances + {len(rnd_sel)} random masks up to 12x12 -> "
              f"{len(recs)} records; relocation: {len(bags)} enumerated border bags x {len(bag_list[0][1])} points "
-             f"(machine outcomes {stats}) -> {len(bag_recs)} calls, {len(rnd_recs)} calls on random distortions; "
+             f"(machine outcomes {stats}) -> {len(bag_recs)} calls, {len(rnd_recs)} calls on random distortions; histories: all {len(hists)} sequences of "
+             f"{b['history_calls']} calls ({'/'.join(HIST_OPS[o] for o in b['history_ops'])} x {b['history_grids']} different data grids) "
+             f"on ONE relocator instance -> {len(hist_recs)} calls, each judged against the border of the grid passed to it; "
              f"{total} relocated coordinates judged, {moved} of them changed by the implementation")
     ctx.note("the implementation takes the centre of the bounding box of the sub-pixel CENTRES (which depends on the sub-sizes "
              "of the extreme pixels); the statement names the bounding box of the unmasked region. TLC proves inside the bound "
@@ -558,9 +712,17 @@ def replay(ctx, rp):
     if rec["api"] == "select":
         recs = [select_record((rec["h"], rec["w"], rec["u"], rec["sub"]), ctx.seed, geom=rec["geom"], form=rec["form"])]
     else:
-        recs = [reloc_record(rec["call"], (rec["h"], rec["w"], rec["u"]), rec["sub"], rec["form"], np.array(rec["grid"]),
-                             rec["tick"], pts_int=None if rec["own"] else np.array(rec["pts"]),
-                             container=rec.get("container", "irregular"))]
+        spec = (rec["h"], rec["w"], rec["u"])
+        br = None
+        if rec.get("prefix"):  # the earlier calls of the history, on the same relocator instance
+            br = _relocator(_mask_of(*spec), rec["sub"], rec["form"])
+            for k, c in enumerate(rec["prefix"]):
+                reloc_record(c["call"], spec, rec["sub"], rec["form"], np.array(c["grid"]), c["tick"],
+                             pts_int=None if c["pts"] is None else np.array(c["pts"]), br=br, hist=k)
+        recs = [reloc_record(rec["call"], spec, rec["sub"], rec["form"], np.array(rec["grid"]), rec["tick"],
+                             pts_int=None if rec["own"] else np.array(rec["pts"]),
+                             container=rec.get("container", "irregular"), br=br, hist=len(rec.get("prefix") or []),
+                             prefix=rec.get("prefix"))]
     rej = validate(ctx, recs, "C18-replay")
     print("replayed", len(recs), "record(s); rejected:", [r["clauses"] for r in rej])
     return ctx.finish()
